@@ -56,8 +56,36 @@ def classify(expr, fn, depth=0):
         return sorted(classes - {"Fresh"})[0]
     if isinstance(expr, ast.Call):
         f = norm(expr.func)
-        if f in ("dict", "copy.deepcopy", "OrderedDict") or f.endswith(".copy") and not f.startswith("copy.") or f == "_correct_old_unit_registry":
+        if f in ("dict", "copy.deepcopy", "OrderedDict") or f.endswith(".copy") and not f.startswith("copy."):
             return "Fresh"
+        mod = getattr(fn, "mod", None)
+        if isinstance(expr.func, ast.Name) and mod is not None and mod.has_func(f) and depth <= 4:
+            # a helper of the library: what it returns, classified inside the helper (a parameter handed back is
+            # the caller's object: the registry built around it shares it with whoever else holds it)
+            g = mod.func(f)
+            rets = [n.value for n in walk_no_nested(g.node) if isinstance(n, ast.Return) and n.value is not None]
+            if not rets:
+                return "Unknown"
+            classes = set()
+            for r in rets:
+                c = classify(r, g, depth + 1)
+                if c == "Param" and isinstance(r, ast.Name):
+                    # the helper hands back its own argument: the class of the actual argument decides
+                    root = r.id
+                    defs = [n.value for n in walk_no_nested(g.node) if isinstance(n, ast.Assign) and any(norm(t) == root for t in n.targets)]
+                    while root not in g.params and len(defs) == 1 and isinstance(defs[0], ast.Name):
+                        root = defs[0].id
+                        defs = [n.value for n in walk_no_nested(g.node) if isinstance(n, ast.Assign) and any(norm(t) == root for t in n.targets)]
+                    if root in g.params:
+                        i = g.params.index(root)
+                        actual = expr.args[i] if i < len(expr.args) else kwarg_of(expr, root)
+                        c = classify(actual, fn, depth + 1) if actual is not None else "Unknown"
+                        if c != "Fresh" and "handed back" not in c:
+                            c = f"{c} (handed back by {f})"
+                classes.add(c)
+            if classes == {"Fresh"}:
+                return "Fresh"
+            return sorted(classes - {"Fresh"})[0]
         if f == "copy.copy":
             return "Fresh"
         if f in ("json.loads", "pickle.loads"):
@@ -283,6 +311,27 @@ def registry_selection(repo, res):
         res.check(eq_sees_registry, f"cached-rule-registry:{f.qualname}", f.where(), f"{f.qualname} is memoised by Unit equality, which ignores the registry a unit belongs to: operands from a second registry with the same contents get a result unit bound to the first registry (a later edit of that registry changes how the second registry's result converts)", "cache key distinguishes registries, or the result is re-created in the operand's registry", "Unit.__eq__ compares scale, offset and dimension only", rid=r4)
     if n_c < 5:
         raise AnalysisError("memoised unit rules not found in array.py")
+    # Unit * Unit, Unit / Unit on operands of two registries: decision table over abstract units, each living in a
+    # registry of its own - whatever branch is taken, the result is created in the left operand's registry
+    from engine.dtable import Rec
+    from rules import c08
+
+    for dunder, sym in (("__mul__", "*"), ("__truediv__", "/")):
+        fnm = uo.func(f"Unit.{dunder}")
+        res.fn(fnm)
+        rows = c08.unit_op_table(repo, dunder)
+        wrong, n_ret = [], 0
+        for (an, bn), (a_, b_, out) in rows.items():
+            if out.kind != "return":
+                continue
+            if not isinstance(out.value, Rec):
+                raise AnalysisError(f"{fnm.where()}: Unit.{dunder}({an}, {bn}) returns something that is not a modelled unit")
+            n_ret += 1
+            if out.value.attrs.get("registry") is not a_.attrs["registry"]:
+                wrong.append(f"{an} {sym} {bn} is created in {out.value.attrs.get('registry')}")
+        if n_ret < 20:
+            raise AnalysisError(f"{fnm.where()}: decision table of Unit.{dunder} has only {n_ret} returning rows")
+        res.check(not wrong, f"Unit.{dunder}:left-registry", fnm.where(), f"Unit.{dunder} over {n_ret} operand pairs from different registries: the result belongs to the left operand's registry" + (f" - {wrong[0]}" if wrong else ""), "registry of the left operand", wrong[:3], rid=r4)
     # unyt_array.__new__: a unit from another registry is re-created, not re-pointed (validated route)
     new = arr.func("unyt_array.__new__")
     res.fn(new)
@@ -320,4 +369,7 @@ MUTANTS = [
     Mutant("default-modifiable", REG, "_NonModifiableUnitRegistry.modify", 'raise TypeError("Units from unyt\'s default registry cannot be modified.")', "return UnitRegistry.modify(self, symbol, base_value)", ("C13-R3",)),
     Mutant("ufunc-default-registry", ARR, "unyt_array.__array_ufunc__", 'u0 = Unit(registry=getattr(u1, "registry", None))', "u0 = Unit()", ("C13-R4",)),
     Mutant("constants-default-registry", US, "add_constants", "quan = unyt_quantity(value, unit_name, registry=registry)", "quan = unyt_quantity(value, unit_name)", ("C13-R5", "C15-R5")),
+    Mutant("mul-null-fastpath-right-registry", UO, "Unit.__mul__", "        base_offset = 0.0\n        if self.base_offset or u.base_offset:\n            if u.dimensions", "        if self.expr is sympy_one and self.base_value == 1.0:\n            return u.copy()\n        base_offset = 0.0\n        if self.base_offset or u.base_offset:\n            if u.dimensions", ("C13-R4",)),
+    Mutant("mul-null-fastpath-left-copy", UO, "Unit.__mul__", "        base_offset = 0.0\n        if self.base_offset or u.base_offset:\n            if u.dimensions", "        if u.expr is sympy_one and u.base_value == 1.0:\n            return self.copy()\n        base_offset = 0.0\n        if self.base_offset or u.base_offset:\n            if u.dimensions", (), benign=True),
+    Mutant("old-registry-fixed-in-place", REG, "_correct_old_unit_registry", "    lut = {}\n", "    lut = data\n", ("C13-R1",)),
 ]
